@@ -74,6 +74,33 @@ func c05Scenarios() []scenario {
 		{name: "delivery-racing-producers", params: heavy, bound: 1, caseCost: 1, prog: c05prog, check: c05check}}
 }
 
+// readsScenarios (C02 / C11 interleaving part): one byte stream reaches the screen through
+// Tty.Read in different partitions while the application is not polling (both queues fill, so
+// several reads are in flight between inputLoop and mainLoop); the decoded events must be the
+// same for every partition: those of the stream delivered in one read.
+func readsScenarios(prop string) []scenario {
+	var params []string
+	add := func(chunks []string, expect string) {
+		c05table = append(c05table, c05p{kind: "slow", perRead: 1, chunks: chunks, expect: expect})
+		params = append(params, fmt.Sprint(len(c05table)-1))
+	}
+	if prop == "C02" {
+		exp := "abcdefghijkl^mnvop"
+		add([]string{"abcdefghijkl\x1b[Amn\x1bOBop"}, exp)
+		add([]string{"abcdefghijkl", "\x1b[Amn", "\x1bOBop"}, exp)
+		add([]string{"abcdefghijkl", "\x1b[", "A", "mn", "\x1bO", "B", "op"}, exp)
+		add([]string{"abcdefghijk", "l\x1b", "[Am", "n\x1bOB", "o", "p"}, exp)
+		add([]string{"abcdef", "ghijkl\x1b[A", "m", "n", "\x1bOBo", "p"}, exp)
+	} else {
+		exp := "abcdefghijkl\u00e9\u4e16z\u00e9\u4e16"
+		add([]string{"abcdefghijkl\xc3\xa9\xe4\xb8\x96z\xc3\xa9\xe4\xb8\x96"}, exp)
+		add([]string{"abcdefghijkl", "\xc3\xa9", "\xe4\xb8\x96", "z", "\xc3\xa9\xe4\xb8\x96"}, exp)
+		add([]string{"abcdefghijkl", "\xc3", "\xa9", "\xe4\xb8", "\x96z", "\xc3\xa9\xe4", "\xb8\x96"}, exp)
+		add([]string{"abcdefghijk", "l\xc3", "\xa9\xe4", "\xb8", "\x96", "z\xc3", "\xa9\xe4\xb8\x96"}, exp)
+	}
+	return []scenario{{name: "reads", params: params, bound: 2, caseCost: 1, prog: c05prog, check: c05check}}
+}
+
 type postRec struct {
 	id  int
 	err error
@@ -311,7 +338,7 @@ func c05check(ps string, o verifrt.Outcome, res *result) string {
 	// keys: exactly the injected sequence
 	want := p.k * p.perRead
 	if p.chunks != nil {
-		want = len(p.expect)
+		want = len([]rune(p.expect))
 	}
 	var keys []rune
 	for _, d := range ob.got {
@@ -346,8 +373,8 @@ func c05check(ps string, o verifrt.Outcome, res *result) string {
 		}
 		if p.chunks != nil {
 			exp = '#'
-			if i < len(p.expect) {
-				exp = rune(p.expect[i])
+			if er := []rune(p.expect); i < len(er) {
+				exp = er[i]
 			}
 		}
 		if k != exp {
